@@ -14,7 +14,9 @@ CONSTANT Emit            \* print the cases (replay) or only check the lemmas
 
 Cases == {[mode |-> "wire", tx |-> t, us |-> <<>>] : t \in AllTx}
          \cup {[mode |-> "noseg", tx |-> t, us |-> <<>>] : t \in FamB2 \cup FamC \cup FamA2}
-         \cup UNION {{[mode |-> "ext", tx |-> t, us |-> u] : u \in UnspentLists(Len(t.ins))} : t \in ExtBase}
+         \cup {[mode |-> "ext", tx |-> t, us |-> u] : t \in {x \in ExtBase : Len(x.ins) = 1}, u \in UnspentLists(1)}
+         \cup {[mode |-> "ext", tx |-> t, us |-> u] : t \in {x \in ExtBase : Len(x.ins) = 2}, u \in UnspentLists(2)}
+         \cup {[mode |-> "ext", tx |-> t, us |-> u] : t \in {x \in ExtBase : Len(x.ins) = 3}, u \in UnspentLists(3)}
 
 InputOf(c) == CASE c.mode = "wire"  -> Wire(c.tx)
                 [] c.mode = "noseg" -> Stripped(c.tx)
